@@ -56,3 +56,11 @@ def lemma_boundaries_do_not_depend_on_the_split(b):
     "same_bytes": lambda res: res[0] == k2 - c,
     "same_next_boundary": lambda res: res[1] + c == res[2],
   })
+
+
+# the loops that call read(): every connection / worker that select reports readable is read exactly once per report, whatever
+# the others do (c10_taskloop / c10_ioloop, generators) - C02 depends on it ("delivers exactly that sequence")
+import contracts.c10_taskloop as _TL
+import contracts.c10_ioloop as _IL
+unit(P, target=_TL.OF01 + "OpenFlow_01_Task.run", name="controller_loop_reads_what_select_reports")(_TL.a_failing_connection_is_closed_alone_and_the_loop_goes_on)
+unit(P, target=_IL.IO + "RecocoIOLoop.run", name="switch_io_loop_reads_what_select_reports")(_IL.a_failing_worker_is_closed_alone_and_the_io_loop_goes_on)
